@@ -2,7 +2,7 @@
 # Builds the framework from files on disk only (offline) and warms the Go build cache.
 set -e
 export GOFLAGS=-mod=mod GOPROXY=off GOSUMDB=off GOTOOLCHAIN=local
-cd /verif
+cd "$(dirname "$0")"
 ./build.sh
 ./build.sh race
 (cd mc && go test ./vrt/ -run Conform -count=1)
